@@ -187,3 +187,70 @@ Proof.
   { unfold a_newlist, init_astate; simpl; lia. }
   change (length (lsts {| elems := []; lsts := [] |})) with 0. rewrite E. split; [reflexivity|]. exists a'. exact R'.
 Qed.
+
+(* ---- the specifications are FIFO / LIFO ---- *)
+Lemma qspec_enq st vs :
+  qspec_from st (map QEnqueue vs) = (map (fun _ => QUnit) vs, st ++ vs).
+Proof.
+  revert st; induction vs as [|v t IH]; intro st; cbn [map qspec_from qspec_step].
+  - rewrite app_nil_r. reflexivity.
+  - rewrite IH, <- app_assoc. reflexivity.
+Qed.
+
+Lemma qspec_from_app st ops1 ops2 :
+  qspec_from st (ops1 ++ ops2) =
+  (fst (qspec_from st ops1) ++ fst (qspec_from (snd (qspec_from st ops1)) ops2),
+   snd (qspec_from (snd (qspec_from st ops1)) ops2)).
+Proof.
+  revert st; induction ops1 as [|op t IH]; intro st; cbn [app qspec_from fst snd].
+  - destruct (qspec_from st ops2); reflexivity.
+  - destruct (qspec_step op st) as [o st1]. rewrite IH.
+    destruct (qspec_from st1 t) as [os st2]. cbn [fst snd]. reflexivity.
+Qed.
+
+Lemma qspec_deq (A : Type) st (ws : list A) : length ws = length st ->
+  qspec_from st (map (fun _ => QDequeue) ws) = (map (fun v => QVal v true) st, []).
+Proof.
+  revert ws; induction st as [|x t IH]; intros [|w ws] L; simpl in L; try lia; cbn [map qspec_from qspec_step].
+  - reflexivity.
+  - rewrite IH by lia. reflexivity.
+Qed.
+
+Lemma sspec_push st vs :
+  sspec_from st (map SPush vs) = (map (fun _ => QUnit) vs, rev vs ++ st).
+Proof.
+  revert st; induction vs as [|v t IH]; intro st; cbn [map sspec_from sspec_step rev].
+  - reflexivity.
+  - rewrite IH, <- app_assoc. reflexivity.
+Qed.
+
+Lemma sspec_from_app st ops1 ops2 :
+  sspec_from st (ops1 ++ ops2) =
+  (fst (sspec_from st ops1) ++ fst (sspec_from (snd (sspec_from st ops1)) ops2),
+   snd (sspec_from (snd (sspec_from st ops1)) ops2)).
+Proof.
+  revert st; induction ops1 as [|op t IH]; intro st; cbn [app sspec_from fst snd].
+  - destruct (sspec_from st ops2); reflexivity.
+  - destruct (sspec_step op st) as [o st1]. rewrite IH.
+    destruct (sspec_from st1 t) as [os st2]. cbn [fst snd]. reflexivity.
+Qed.
+
+Lemma sspec_pop (A : Type) st (ws : list A) : length ws = length st ->
+  sspec_from st (map (fun _ => SPop) ws) = (map (fun v => QVal v true) st, []).
+Proof.
+  revert ws; induction st as [|x t IH]; intros [|w ws] L; simpl in L; try lia; cbn [map sspec_from sspec_step].
+  - reflexivity.
+  - rewrite IH by lia. reflexivity.
+Qed.
+
+Theorem spec_orders vs :
+  fst (qspec_from [] (map QEnqueue vs ++ map (fun _ => QDequeue) vs)) =
+    map (fun _ => QUnit) vs ++ map (fun v => QVal v true) vs /\
+  fst (sspec_from [] (map SPush vs ++ map (fun _ => SPop) vs)) =
+    map (fun _ => QUnit) vs ++ map (fun v => QVal v true) (rev vs).
+Proof.
+  split.
+  - rewrite qspec_from_app, qspec_enq. cbn [fst snd app]. rewrite qspec_deq by reflexivity. reflexivity.
+  - rewrite sspec_from_app, sspec_push. cbn [fst snd]. rewrite app_nil_r.
+    rewrite sspec_pop by (rewrite rev_length; reflexivity). reflexivity.
+Qed.
